@@ -189,8 +189,11 @@ def viable (lk : Look) (s : State) : Bool :=
   -- there are at least as many error messages still to be observed
   let owed := (s.gs.filter fun x => x.pc == .failing).length +
     (match s.loop with | .sending _ _ => 1 | _ => 0) + (pendingErrs s).length
+  -- (not when a server-fatal error message is still to come: the handler stops after it and the
+  -- later reports are never written)
+  let fatalAhead := rest.any fun o => match o with | .error e => e.serverFatal | _ => false
   let owedOk := lk.fin != "returned" || s.stopped || s.outBroken || s.h == .done || lk.fault || s.cancelled
-    || owed ≤ rest.length
+    || fatalAhead || owed ≤ rest.length
   pre && lenOk && brokenOk && pend && stepsOk && owedOk
 
 /-- the internal actions that can be enabled in `s` (the same successors as `internalActs`, without
